@@ -110,6 +110,21 @@ CHECKS.update({
    note="Trusted: TLC; the canonical printer render_canon() is this check's reading of RFC 0166 for the package-file idiom (nixfmt is not available offline); layouts that proved arguable are not generated. Exhaustive for documents of <= 1/2 parts per skeleton; larger documents are random walks.",
    tech="TLA+ compositional document builder + TLC-judged byte identity of real round trips"),
 })
+
+# extensions of the second build phase (DESIGN.md section 14)
+CHECKS["C01"]["text"] += " The corpus also holds programs with TWO filled gaps (the pair space is sampled by -simulate walks of Gen.tla) and, in the thorough tier, every text the repository's own tests parse."
+CHECKS["C06"]["text"] += " The same clause (C06_EditStable) is judged on the text emitted by every successful edit step of the edit engine (canonical, layer-trivia and loose renderings of the seeds), and C06_TestAccepts requires that the library does not flag its own rebuilt text as erroneous."
+CHECKS["C18"]["text"] += " The indentation clause C18_Indent (own-line comments and closing delimiters follow their structure) is judged on the same outputs, and both clauses on the text an edited document rebuilds to (Norm_Trace.tla)."
+CHECKS["C08"]["text"] += " Edit.tla also generates MALFORMED requests (8 kinds of malformed path, 6 kinds of invalid value), alone and inside longer histories: they must be refused and leave the document as it was."
+CHECKS["C05"]["text"] += " Values are also spelled with surrounding blanks and with leading / trailing comments (same abstract value), and C05_OthersKept requires the attribute trees of the body and of every other let layer to stay what they were."
+CHECKS["C09"]["text"] += " C09 also owns the effect clause for scope-prefixed operations (@name must write the layer's binding) and replays every scoped history on documents with trivia owned by the let layers (a comment after every `in')."
+CHECKS["C10"]["text"] += " Docs.tla adds histories in which a reference OBJECT read from one document is assigned into another (scoped or plain) document after the first was discarded: it must resolve in its new place or raise ResolutionError."
+CHECKS["C11"]["text"] += " Every editable chain also runs the three-step history set x; set @a; set x on ONE object; the third step is judged on the chain the second step left behind."
+CHECKS["C12"]["text"] += " Reserved words of the grammar are names as well: bare in a path, they must be written quoted in the file."
+CHECKS["C14"]["text"] += " The operation copy (m[dest] = m[src], dest = src or fresh) hands a looked-up value (explicit or merged attrpath family) back to the mapping."
+CHECKS["C15"]["text"] += " Purity is also checked for documents BUILT through the API from the list / dict values of MC_Values (layout decisions taken at rebuild time must not be stored on the tree)."
+CHECKS["C19"]["text"] += " Scoped law instances are also run on documents with a comment after every `in'."
+CHECKS["C07"]["text"] += " Edits are attempted through plain, nested, quoted and scope-prefixed (@, @@) paths, through the library and `nima set' / `nima rm'."
 import os
 built = {p: m for p, m in CHECKS.items()}
 checks = []
